@@ -9,9 +9,9 @@ from .. import tlc
 from ..words import limbs, rand32
 from .c18 import _dispatch
 
-EXT_CFG = {(False, False): {'have_security_ext': False, 'have_virt_ext': False},
-           (True, False): {'have_security_ext': True, 'have_virt_ext': False},
-           (True, True): {'have_security_ext': True, 'have_virt_ext': True, 'arch_version': 7}}
+EXT_CFG = {(False, False): {'have_security_ext': False, 'have_virt_ext': False, 'have_thumbee': True},
+           (True, False): {'have_security_ext': True, 'have_virt_ext': False, 'have_thumbee': True},
+           (True, True): {'have_security_ext': True, 'have_virt_ext': True, 'arch_version': 7, 'have_thumbee': True}}
 
 
 def bit(v, i, b):
@@ -23,10 +23,10 @@ def scenario_task(task):
     g = S.mk_group(dict(task, cfg=EXT_CFG[task['ext']]))
     for sc in task['scs']:
         st = g.fresh()
-        thumb = sc['t'] == 1
+        thumb = sc['t'] >= 1
         C.randomize(st, rnd, mode=sc['mode'], thumb=thumb, it=sc['it'] if thumb else 0,
                     pc=(sc['pc'][0] << 16) | sc['pc'][1])
-        c = C.unlimbs(st['cpsr'])
+        c = C.unlimbs(st['cpsr']) | ((1 << 24) if sc['t'] == 2 else 0)            # t = 2: ThumbEE state (J = 1, T = 1)
         for i in (6, 7, 8):
             c = bit(c, i, sc['aif'] if sc['kind'] in ('Undef', 'SVC', 'SMC') else rnd.getrandbits(1))
         st['cpsr'] = limbs(c)
